@@ -213,6 +213,7 @@ def run(ctx):
         requests(ctx, fb, cfg)
         identities(ctx, fb, cfg)
         json_codec(ctx, fb, cfg)
+        bigint_json(ctx, fb, cfg)
         whole_io(ctx, fb, cfg)
         if cfg != "stateless":
             no_over_rejection(ctx, fb, cfg)
@@ -535,6 +536,81 @@ def json_codec(ctx, fb, cfg):
     names = [f["name"] for f in adt["variants"][0]["fields"]] if adt else []
     ctx.check(names == ["identity_secret", "user_message_limit", "message_id", "path_elements", "identity_path_index", "x", "external_nullifier"],
               "R10-4", "RLNWitnessInput-fields[%s]" % cfg, "7 fields as documented", "RLNWitnessInput field set changed: %s" % names)
+
+
+def is_unsigned_bigint_of(t, x):
+    """t is the non-negative BigInt of the whole field element x: BigInt <- BigUint <- Fr, through From / Into (or
+    BigInt::from_biguint(Plus, ..)); any byte-level reinterpretation (signed bytes, truncation) is something else"""
+    for _ in range(4):
+        if not (isinstance(t, tuple) and t and t[0] == "call" and t[2]):
+            return False
+        n = t[1]
+        if re.search(r"Into<U>>::into@\[num_bigint::BigUint, num_bigint::BigInt\]$|From<num_bigint::BigUint> for num_bigint::BigInt>::from$", n):
+            t = t[2][0]
+            continue
+        if re.search(r"BigInt::from_biguint$", n) and len(t[2]) == 2 and "Plus" in str(t[2][0]):
+            t = t[2][1]
+            continue
+        if re.search(r"From<ark_ff::Fp<P, N>> for num_bigint::BigUint>::from$|Into<U>>::into@\[ark_ff::Fp<.*>, num_bigint::BigUint\]$", n):
+            return t[2][0] == x
+        return False
+    return False
+
+
+JSON_SCALARS = {"identitySecret": "identity_secret", "userMessageLimit": "user_message_limit", "messageId": "message_id",
+                "x": "x", "externalNullifier": "external_nullifier"}
+
+
+def bigint_json(ctx, fb, cfg):
+    """R10-7: the decimal JSON witness (input of an external witness calculator): to_bigint(el) is the non-negative integer of the
+    whole element, and each documented key carries the base-10 string of the same-named witness field (path vectors element-wise)"""
+    tb = fb.need("rln::utils::to_bigint")
+    ctx.touch(tb)
+    eng = Engine(fb, inline=lambda i: False)
+    ps = [p for p in eng.run(tb) if p.kind != "unreachable"]
+    why = ""
+    if len(ps) != 1 or ps[0].conds():
+        why = "to_bigint is specified as one unconditional path, found %d path(s)%s" % (len(ps), " with conditions" if any(p.conds() for p in ps) else "")
+    else:
+        rv = eng.value_of(ps[0].store, ps[0].ret)
+        inner = rv[4][0] if (rv[0] == "adt" and rv[2] == "Ok" and rv[4]) else None
+        if inner is None or not is_unsigned_bigint_of(inner, P(1)):
+            why = "to_bigint returns %s, specification Ok(BigInt::from(BigUint::from(el))) - the non-negative integer of the whole element" % sh(rv, 140)
+    ctx.check(not why, "R10-7", "to_bigint[%s]" % cfg, "Ok(BigInt::from(BigUint::from(el)))", why, loc(tb))
+    it = fb.need("rln::protocol::rln_witness_to_bigint_json")
+    ctx.touch(it)
+    eng = Engine(fb, inline=inline_only(r"^rln::utils::to_bigint$"))
+    paths = [p for p in eng.run(it) if p.kind != "unreachable"]
+    oks = [p for p in paths if p.kind == "return" and any(re.search(r"Map::<.*>::insert$", c[1]) for c in p.calls())]
+    why = ""
+    if len(oks) != 1:
+        why = "expected one success path that builds the object, found %d" % len(oks)
+    else:
+        got = {}
+        for c in oks[0].calls(r"serde_json::Map::<.*>::insert$"):
+            k = [x[1] for x in subterms(c[2][1]) if isinstance(x, tuple) and len(x) == 2 and x[0] == "str"]
+            got[k[-1] if k else sh(c[2][1], 30)] = c[2][2]
+        want = set(JSON_SCALARS) | {"pathElements", "identityPathIndex"}
+        if set(got) != want:
+            why = "keys written are %s, documented %s" % (sorted(got), sorted(want))
+        for k, fld in sorted(JSON_SCALARS.items()):
+            if why:
+                break
+            v = got[k]
+            strs = [t for t in subterms(v) if isinstance(t, tuple) and t and t[0] == "call" and t[1].endswith("BigInt::to_str_radix")]
+            if not (len(strs) == 1 and cint(strs[0][2][1]) == 10 and is_unsigned_bigint_of(strs[0][2][0], F(P(1), fld))):
+                why = "key %s carries %s, specification the base-10 string of to_bigint(witness.%s)" % (k, sh(v, 120), fld)
+        if not why:
+            if not contains(got["identityPathIndex"], F(P(1), "identity_path_index")):
+                why = "identityPathIndex is not built from witness.identity_path_index"
+            pe = [p for p in paths if p.kind == "backedge"]
+            pushed = [e for p in pe for e in p.trace if e[0] in ("push", "append")]
+            good = [e for e in pushed if isinstance(e[3], tuple) and e[3][0] == "call" and e[3][1].endswith("BigInt::to_str_radix") and cint(e[3][2][1]) == 10
+                    and contains(e[3][2][0], F(P(1), "path_elements"))
+                    and is_unsigned_bigint_of(e[3][2][0], [t for t in subterms(e[3][2][0]) if isinstance(t, tuple) and t and t[0] == "unwrap"][0] if [t for t in subterms(e[3][2][0]) if isinstance(t, tuple) and t and t[0] == "unwrap"] else None)]
+            if not why and (not pushed or len(good) != len(pushed)):
+                why = "pathElements entries are %s, specification the base-10 string of to_bigint(element) for every element" % [sh(e[3], 80) for e in pushed][:2]
+    ctx.check(not why, "R10-7", "rln_witness_to_bigint_json[%s]" % cfg, "seven documented keys, each the decimal string of the same-named witness field", why, loc(it))
 
 
 def tree_exports(ctx, fb, cfg):
